@@ -5,6 +5,7 @@ import (
 	"fmt"
 	"math/big"
 
+	secp256k1 "gitlab.com/yawning/secp256k1-voi"
 	"gitlab.com/yawning/secp256k1-voi/secec"
 
 	"verifharness/mon"
@@ -175,6 +176,53 @@ func runC11(r *mon.Run) {
 		}
 		if bigFromScalar(lr).Cmp(rr) != 0 || bigFromScalar(ls).Cmp(ss) != 0 {
 			w.Fail("c11:operand", "RecoverPublicKey modified r or s")
+		}
+	})
+
+	// --- the caller reuses its argument OBJECTS in place: one scratch r, one scratch s and one
+	// digest buffer are overwritten with the next signature and passed again (a decode loop).
+	// A memo keyed on the identity of an argument (its pointer, its backing array) instead of
+	// its value returns the previous answer.  Single goroutine.
+	r.Require("c11:argument-reuse")
+	r.Seq("c11/argument-reuse", r.N(40, 1500), func(w *mon.W, i int) {
+		rng := w.Rng
+		lr, ls := secp256k1.NewScalar(), secp256k1.NewScalar()
+		dig := make([]byte, 32)
+		var held []*secec.PublicKey
+		var heldWant []*oracle.Pt
+		for k := 0; k < 6; k++ {
+			t := honestTuple(rng, false)
+			if _, err := lr.SetCanonicalBytes(arr32(t.R)); err != nil {
+				return
+			}
+			if _, err := ls.SetCanonicalBytes(arr32(t.S)); err != nil {
+				return
+			}
+			copy(dig, t.Digest[:32])
+			w.Class("c11:argument-reuse")
+			w.Case(true, []byte("reuse"), dig, b32(t.R), b32(t.S))
+			for _, id := range []int{t.V, t.V ^ 1} {
+				want := oracle.ECDSARecover(dig, t.R, t.S, id)
+				got, err := secec.RecoverPublicKey(dig, lr, ls, byte(id))
+				if (err == nil) != (want != nil) {
+					w.Fail("c11/argument-reuse:verdict", fmt.Sprintf("signature #%d through reused r/s/digest objects, id=%d: err=%v, model recovers=%v", k, id, err, want != nil), "digest", hx(dig), "r", hb(t.R), "s", hb(t.S))
+					return
+				}
+				if want != nil {
+					if !bytes.Equal(got.Bytes(), oracle.EncodeUncompressed(want)) {
+						w.Fail("c11/argument-reuse:value", fmt.Sprintf("signature #%d through reused r/s/digest objects, id=%d: recovered %x, expected %x", k, id, got.Bytes(), oracle.EncodeUncompressed(want)), "digest", hx(dig), "r", hb(t.R), "s", hb(t.S))
+						return
+					}
+					held, heldWant = append(held, got), append(heldWant, want)
+				}
+			}
+		}
+		// keys recovered earlier are still the keys they were
+		for j, k := range held {
+			if msg := expectPoint(k.Point(), heldWant[j]); msg != "" || !bytes.Equal(k.Bytes(), oracle.EncodeUncompressed(heldWant[j])) {
+				w.Fail("c11/argument-reuse:held", fmt.Sprintf("a key recovered earlier changed after later recoveries: %s", msg))
+				return
+			}
 		}
 	})
 }
